@@ -1,7 +1,8 @@
 (* C10 — declared shifts bound what a rule actually reads when counting.
 
    Only statements; every proof is an application of lemmas of
-   Count/CompositionsSpec.v, Count/Reads.v and Count/ReadsDerived.v.
+   Count/CompositionsSpec.v, Count/Reads.v, Count/ReadsDerived.v and
+   Count/ReadsOneFactor.v.
 
    `compositions`, `product_shifts`, `union_shifts`, `reverse_shifts`,
    `quotient_min_sizes/_max_sizes/_parent_shift` are NOT hand-written: they are
@@ -25,7 +26,8 @@
    them hold for ALL d and BOTH kinds of strategy.                          *)
 From Coq Require Import ZArith List Bool Lia.
 From CSS Require Import Gen.Prelude Gen.Compositions Gen.ReverseShifts Gen.ProductShifts
-  Gen.UnionShifts Gen.QuotientParentShift Count.CompositionsSpec Count.Reads Count.ReadsDerived.
+  Gen.UnionShifts Gen.QuotientParentShift Count.CompositionsSpec Count.Reads Count.ReadsDerived
+  Count.ReadsOneFactor.
 Import ListNotations.
 Open Scope Z_scope.
 
@@ -186,8 +188,10 @@ Proof. exact derived_reads_are_original_reads. Qed.
 (* CartesianProductStrategy: asked about one child only it answers (0,) whatever the child.  The
    original product rule declares for child ci the sum of the minimum sizes of the OTHER children,
    so the two agree exactly when those sum to 0 (in particular for a one-child product, where the
-   two calls are the same call).  get_terms of such an equivalence rule raises
-   NotImplementedError in /repo; only its shifts() is observable. *)
+   two calls are the same call).  Since fix 25e10f1 get_terms of the equivalence rule of a
+   ONE-factor product counts through a one-child DisjointUnion (C10_one_factor_product_reads
+   below); only EquivalenceRule(ReverseRule(one-factor product)) still raises
+   NotImplementedError in /repo, there only shifts() is observable. *)
 Theorem C10_product_equivalence_shift : forall (c : desc) ci d0 d,
   product_shifts [d] = [0] /\
   (0 <= ci < zlen c ->
@@ -205,6 +209,75 @@ Theorem C10_path_shift_is_sum_of_step_shifts : forall (steps : list (Z * (Z * bo
   nth 0 (derived_shifts strat d) 0 =
   py_sum (map (fun s : Z * (Z * bool) => nth 0 (derived_shifts (fst s) (snd s)) 0) steps).
 Proof. exact path_shift_is_sum_of_steps. Qed.
+
+(* ------------------------------------------------------------ a product with ONE factor
+   (fix 25e10f1 of /repo: such a rule can be used as an equivalence step and in reverse).
+   d = (minimum size, is_atom) of the one factor, ANY d; all sizes n.  The rule itself is form 1
+   on [d]; its reverse (ReverseRule, constructor Quotient WITHOUT sibling) form 3 on [d] with
+   idx = 0; its equivalence form and an equivalence path starting with a step over it (also a
+   path of RAW one-child Rule / ReverseRule objects, which is what specification_extrator.py
+   builds) are the derived forms 4 / 6 with strat = 1.  No new model: the statements are
+   computations of the reads model and of the generated shift functions on [d]. *)
+
+(* (i) what they declare: CartesianProductStrategy.shifts on one child is (0,); ReverseRule.shifts
+   of that is (-0,) = (0,); Quotient.__init__'s parent shift is 0 *)
+Theorem C10_one_factor_product_shifts : forall d : Z * bool,
+  rule_shifts 1 [d] 0 = [0] /\ derived_shifts 1 d = [0] /\ rule_shifts 3 [d] 0 = [0] /\
+  quotient_parent_shift [d] 0 = 0.
+Proof. exact one_factor_shifts. Qed.
+
+(* (i) what they read.  The forward rule (CartesianProduct.get_terms): exactly the child at n,
+   and only when a composition exists (0 <= n, minimum size <= n, for an atom n = its size);
+   its equivalence form and a path over it (one-child DisjointUnion): exactly the child at n,
+   always.  Every such read is of provider 0, never SELF, within the declared shift 0. *)
+Theorem C10_one_factor_product_reads : forall (d : Z * bool) n,
+  rule_reads 1 [d] 0 n =
+    (if (0 <=? n) && (fst d <=? n) && (negb (snd d) || (n <=? fst d)) then [(0, n)] else []) /\
+  derived_reads 4 d n = [(0, n)] /\ derived_reads 6 d n = [(0, n)] /\
+  (forall p m, In (p, m) (rule_reads 1 [d] 0 n) ->
+     p = 0 /\ p <> SELF /\ m = n /\ 0 <= n /\ fst d <= n /\
+     m <= n - nth (Z.to_nat p) (rule_shifts 1 [d] 0) 0).
+Proof.
+  intros d n. split; [exact (reads_product_one d n)|].
+  split; [reflexivity|]. split; [reflexivity|].
+  intros p m. exact (one_factor_forward_reads_bounded d n p m).
+Qed.
+
+(* (ii) the reverse: a Quotient with no sibling.  Nothing below the minimum size of the counted
+   child; from there on exactly the ORIGINAL PARENT (provider 0) at n = n - declared shift 0.
+   No sibling and no own earlier term: the `_a` compositions (the counted child alone, capped at
+   n - 1, would have to take all of n) and the `_c` compositions (0 into 0 parts; /repo's
+   Quotient._c returns the constant 1 without asking anybody since 25e10f1) are both EMPTY —
+   the model's reads_quotient needed no change to agree with the fixed code. *)
+Theorem C10_quotient_no_sibling_reads : forall (d : Z * bool) n,
+  rule_reads 3 [d] 0 n = (if n <? fst d then [] else [(0, n)]) /\
+  (compositions (n + quotient_parent_shift [d] 0) (zlen [d]) (quotient_min_sizes [d])
+     (firstn (Z.to_nat 0) (quotient_max_sizes [d]) ++ [Some (n - 1)] ++
+      skipn (Z.to_nat (0 + 1)) (quotient_max_sizes [d])) = [] /\
+   compositions (quotient_parent_shift [d] 0) (zlen [d] - 1)
+     (remove_at 0 (quotient_min_sizes [d])) (remove_at 0 (quotient_max_sizes [d])) = []) /\
+  (forall p m, In (p, m) (rule_reads 3 [d] 0 n) ->
+     p = 0 /\ p <> SELF /\ m = n /\ fst d <= n /\
+     m = n - nth (Z.to_nat p) (rule_shifts 3 [d] 0) 0).
+Proof.
+  intros d n. split; [exact (reads_quotient_one d n)|].
+  split; [exact (quotient_one_summands d n)|].
+  intros p m. exact (one_factor_reverse_reads_bounded d n p m).
+Qed.
+
+(* the GENERAL theorems already cover one factor: C10_reads_respect_declared_shifts and C10_quotient
+   ask for `0 <= idx < zlen c` only (no `2 <= zlen c`), which for c = [d] is idx = 0.  This is their
+   instance, for all four plain forms on a one-element descriptor list. *)
+Theorem C10_one_factor_reads_respect_declared_shifts : forall form (d : Z * bool) n p m,
+  0 <= form <= 3 ->
+  In (p, m) (rule_reads form [d] 0 n) ->
+  (p = SELF /\ m < n) \/
+  (0 <= p < 1 /\ m <= n - nth (Z.to_nat p) (rule_shifts form [d] 0) 0).
+Proof.
+  intros form d n p m Hf H.
+  apply (C10_reads_respect_declared_shifts form [d] 0 n p m Hf); [|exact H].
+  intros _. change (zlen [d]) with 1. lia.
+Qed.
 
 (* ------------------------------------------------------------ all seven forms *)
 (* the property as stated, uniformly over plain, reversed, equivalence, reverse-of-equivalence
@@ -538,6 +611,63 @@ Proof.
   repeat split; reflexivity.
 Qed.
 
+(* ------------------------------------------------------------------------
+   NON-VACUITY of the one-factor theorems: each APPLIED to the one-factor products over d_geo (a
+   class of minimum size 2) and d_atom (an atom of size 3). *)
+Example C10_one_factor_product_shifts_nonvacuous :
+  (rule_shifts 1 [d_geo] 0 = [0] /\ derived_shifts 1 d_geo = [0] /\ rule_shifts 3 [d_geo] 0 = [0] /\
+   quotient_parent_shift [d_geo] 0 = 0) /\
+  product_shifts [d_atom] = [0] /\ reverse_shifts (product_shifts [d_atom]) 0 = [0].
+Proof.
+  split; [exact (C10_one_factor_product_shifts d_geo)|].
+  split; [exact (proj1 (C10_one_factor_product_shifts d_atom))|].
+  exact (proj1 (proj2 (proj2 (C10_one_factor_product_shifts d_atom)))).
+Qed.
+
+(* forward: the non-atom is read at every n >= 2, the atom only at n = 3; the equivalence form
+   and the path read at every n (also below the minimum size: DisjointUnion asks anyway) *)
+Example C10_one_factor_product_reads_nonvacuous :
+  rule_reads 1 [d_geo] 0 1 = [] /\ rule_reads 1 [d_geo] 0 5 = [(0, 5)] /\
+  rule_reads 1 [d_atom] 0 3 = [(0, 3)] /\ rule_reads 1 [d_atom] 0 4 = [] /\
+  derived_reads 4 d_geo 1 = [(0, 1)] /\ derived_reads 6 d_atom 4 = [(0, 4)] /\
+  (0 = 0 /\ 0 <> SELF /\ 5 = 5 /\ 0 <= 5 /\ fst d_geo <= 5 /\
+   5 <= 5 - nth (Z.to_nat 0) (rule_shifts 1 [d_geo] 0) 0).
+Proof.
+  split; [exact (proj1 (C10_one_factor_product_reads d_geo 1))|].
+  split; [exact (proj1 (C10_one_factor_product_reads d_geo 5))|].
+  split; [exact (proj1 (C10_one_factor_product_reads d_atom 3))|].
+  split; [exact (proj1 (C10_one_factor_product_reads d_atom 4))|].
+  split; [exact (proj1 (proj2 (C10_one_factor_product_reads d_geo 1)))|].
+  split; [exact (proj1 (proj2 (proj2 (C10_one_factor_product_reads d_atom 4))))|].
+  apply (proj2 (proj2 (proj2 (C10_one_factor_product_reads d_geo 5))) 0 5). vm_compute. intuition.
+Qed.
+
+(* reverse: nothing below the minimum size, then exactly the original parent at n — for the atom
+   too (the Quotient does not know that the parent has no object of size 4) *)
+Example C10_quotient_no_sibling_reads_nonvacuous :
+  rule_reads 3 [d_geo] 0 1 = [] /\ rule_reads 3 [d_geo] 0 2 = [(0, 2)] /\
+  rule_reads 3 [d_atom] 0 4 = [(0, 4)] /\
+  (0 = 0 /\ 0 <> SELF /\ 4 = 4 /\ fst d_atom <= 4 /\
+   4 = 4 - nth (Z.to_nat 0) (rule_shifts 3 [d_atom] 0) 0) /\
+  ~ In (SELF, 3) (rule_reads 3 [d_atom] 0 4) /\ ~ In (1, 0) (rule_reads 3 [d_atom] 0 4).
+Proof.
+  split; [exact (proj1 (C10_quotient_no_sibling_reads d_geo 1))|].
+  split; [exact (proj1 (C10_quotient_no_sibling_reads d_geo 2))|].
+  split; [exact (proj1 (C10_quotient_no_sibling_reads d_atom 4))|].
+  split; [apply (proj2 (proj2 (C10_quotient_no_sibling_reads d_atom 4)) 0 4); vm_compute; intuition|].
+  split; vm_compute; intuition congruence.
+Qed.
+
+(* the general theorem instantiated at one factor, forms 1 and 3 *)
+Example C10_one_factor_reads_respect_declared_shifts_nonvacuous :
+  ((0 = SELF /\ 5 < 5) \/ (0 <= 0 < 1 /\ 5 <= 5 - nth (Z.to_nat 0) (rule_shifts 1 [d_geo] 0) 0)) /\
+  ((0 = SELF /\ 4 < 4) \/ (0 <= 0 < 1 /\ 4 <= 4 - nth (Z.to_nat 0) (rule_shifts 3 [d_atom] 0) 0)).
+Proof.
+  split.
+  - apply (C10_one_factor_reads_respect_declared_shifts 1 d_geo 5 0 5); [lia|vm_compute; intuition].
+  - apply (C10_one_factor_reads_respect_declared_shifts 3 d_atom 4 0 4); [lia|vm_compute; intuition].
+Qed.
+
 Print Assumptions C10_compositions_sound.
 Print Assumptions C10_compositions_spec.
 Print Assumptions C10_compositions_no_parts.
@@ -556,3 +686,7 @@ Print Assumptions C10_product_equivalence_shift.
 Print Assumptions C10_path_shift_is_sum_of_step_shifts.
 Print Assumptions C10_all_forms_reads_respect_declared_shifts.
 Print Assumptions C10_all_forms_one_shift_per_child.
+Print Assumptions C10_one_factor_product_shifts.
+Print Assumptions C10_one_factor_product_reads.
+Print Assumptions C10_quotient_no_sibling_reads.
+Print Assumptions C10_one_factor_reads_respect_declared_shifts.
